@@ -5,10 +5,11 @@ cd /verif
 mkdir -p evidence replays
 cd spec
 T=$(mktemp)
+J=$(mktemp -d)          # (SANY unpacks the standard modules into java.io.tmpdir on every start: kept out of /tmp, removed below)
+trap 'rm -rf "$T" "$J"' EXIT
 for f in *.tla; do
-  java -cp /opt/veriftools/tla/tla2tools.jar:/opt/veriftools/tla/CommunityModules-deps.jar tla2sany.SANY "$f" > "$T" 2>&1 || { cat "$T"; rm -f "$T"; exit 1; }
-  if grep -q "rror" "$T"; then cat "$T"; rm -f "$T"; exit 1; fi
+  java -Djava.io.tmpdir="$J" -cp /opt/veriftools/tla/tla2tools.jar:/opt/veriftools/tla/CommunityModules-deps.jar tla2sany.SANY "$f" > "$T" 2>&1 || { cat "$T"; exit 1; }
+  if grep -q "rror" "$T"; then cat "$T"; exit 1; fi
 done
-rm -f "$T"
 /venv/bin/python -c "import sysloss, hypothesis"
 echo "setup ok"
